@@ -70,6 +70,14 @@ func relayout(t *rapid.T, toks []string, infix, minimal bool) string {
 		if minimal {
 			k = 0
 		}
+		// the gap right behind a leading `!` (infix): a token that lexers tend to treat specially - a
+		// directive look-alike there is still an ordinary comment
+		if i == 1 && strings.HasPrefix(toks[0], "!") && !minimal && rapid.Bool().Draw(t, "afterbang") {
+			sb.WriteString(rapid.SampledFrom([]string{" ", ""}).Draw(t, "afterbang_pre") + rapid.SampledFrom([]string{";;;; optimize:false", ";;;; reordering:false, fast_evaluation:false", ";;;; see ticket 42", ";;;; constant_folding: false"}).Draw(t, "afterbang_cmt") + "\n")
+			sb.WriteString(tk)
+			prev = tk
+			continue
+		}
 		switch {
 		case i == 0 && k >= 4:
 			sb.WriteString(rapid.SampledFrom(layoutSpaces).Draw(t, "lead"))
@@ -109,7 +117,11 @@ func genC14(t *rapid.T) C14Case {
 	c := C14Case{Infix: rapid.IntRange(0, 3).Draw(t, "infix") == 0, Mask: rapid.IntRange(0, 15).Draw(t, "mask"), DirMask: -1}
 	var tree *m.Node
 	if c.Infix {
-		tree = g.Program(rootTy(t))
+		ty := rootTy(t)
+		tree = g.Program(ty)
+		if ty == m.TBool && rapid.IntRange(0, 2).Draw(t, "bangroot") == 0 {
+			tree = m.Op("!", tree) // the source then starts with `!`
+		}
 		normSymbolic(tree)
 	} else {
 		tree = wrapRoot(g.Program(rootTy(t)))
